@@ -165,140 +165,6 @@ func rowsOf(is *ast.IfStmt, ren func(string) string) []string {
 	return out
 }
 
-func runC13R2(c *Ctx, r *Rep) {
-	fd := c.MethodDecl("py", "Slice", "GetIndices")
-	if fd == nil || fd.Body == nil {
-		r.undecided("py|Slice.GetIndices", token.NoPos, "anchor function not found")
-		return
-	}
-	r.analysed("(*py.Slice).GetIndices")
-	pyp := c.MustPkg("py")
-	gaHelper = func(call *ast.CallExpr) *ast.FuncDecl {
-		if fn := Callee(pyp.TypesInfo, call); fn != nil && fn.Pkg() == pyp.Types && isNewFunc(FuncID(fn)) {
-			if d := c.Decl(fn); d != nil && d.Body != nil {
-				return d
-			}
-		}
-		return nil
-	}
-	defer func() { gaHelper = nil }()
-	recv := "r"
-	if fd.Recv != nil && len(fd.Recv.List) == 1 && len(fd.Recv.List[0].Names) == 1 {
-		recv = fd.Recv.List[0].Names[0].Name
-	}
-	sStart, sStop := topLevelOn(fd.Body, "Start"), topLevelOn(fd.Body, "Stop")
-	if sStart == nil || sStop == nil {
-		r.undecided("py|Slice.GetIndices|halves", fd.Pos(), "could not find the top-level `if %s.Start == None` / `if %s.Stop == None` statements; confirm how start and stop are normalised and update the rule", recv, recv)
-		return
-	}
-	// names of the result variables assigned in the None branches
-	varOf := func(is *ast.IfStmt) (v, def string) {
-		if len(is.Body.List) == 1 {
-			if as, ok := is.Body.List[0].(*ast.AssignStmt); ok && len(as.Lhs) == 1 && len(as.Rhs) == 1 {
-				return exprStr(as.Lhs[0]), exprStr(as.Rhs[0])
-			}
-		}
-		return "", ""
-	}
-	vS, dS := varOf(sStart)
-	vE, dE := varOf(sStop)
-	if vS == "" || vE == "" {
-		r.undecided("py|Slice.GetIndices|halves", fd.Pos(), "the None branches are not single assignments of a default")
-		return
-	}
-	a := rowsOf(sStart, renamer(vS, "X", dS, "DEFX", "Start", "F"))
-	b := rowsOf(sStop, renamer(vE, "X", dE, "DEFX", "Stop", "F"))
-	miss, extra := diffSets(a, b)
-	if len(miss) == 0 && len(extra) == 0 {
-		r.ok("py|Slice.GetIndices|start/stop symmetry", sStart.Pos(), "start and stop are normalised by the same guarded assignments modulo renaming (%d rows each)", len(a))
-	} else {
-		r.bad("py|Slice.GetIndices|start/stop symmetry", sStart.Pos(), "start and stop are normalised differently (PySlice_GetIndicesEx treats them identically: offset by length once if negative, clip low, clip high): only for %s: %s; only for %s: %s",
-			vS, strings.Join(miss, " ; "), vE, strings.Join(extra, " ; "))
-	}
-	// defaults by sign of step
-	var defRows []gaRow
-	for _, s := range fd.Body.List {
-		if is, ok := s.(*ast.IfStmt); ok && strings.HasPrefix(exprStr(is.Cond), "step <") || ok && strings.HasPrefix(exprStr(is.Cond), "step >") {
-			var rows []gaRow
-			guardedAssigns([]ast.Stmt{is}, nil, func(s string) string { return s }, &rows)
-			for _, row := range rows {
-				if row.lhs == dS || row.lhs == dE {
-					defRows = append(defRows, row)
-				}
-			}
-		}
-	}
-	defOf := func(name, sign string) string {
-		for _, row := range defRows {
-			if row.lhs == name && len(row.conds) == 1 && signOf(row.conds[0]) == sign {
-				return row.rhs
-			}
-		}
-		return "?"
-	}
-	want := map[string]string{ // Python: step<0: start default len-1, stop default -1; else 0, len
-		dS + "|neg": "length - 1", dE + "|neg": "-1", dS + "|pos": "0", dE + "|pos": "length",
-	}
-	lengthName := "length"
-	if fd.Type.Params != nil && len(fd.Type.Params.List) == 1 && len(fd.Type.Params.List[0].Names) == 1 {
-		lengthName = fd.Type.Params.List[0].Names[0].Name
-	}
-	for k, w := range want {
-		parts := strings.Split(k, "|")
-		got := defOf(parts[0], parts[1])
-		w = strings.ReplaceAll(w, "length", lengthName)
-		r.check(got == w, "py|Slice.GetIndices|default "+k, fd.Pos(), "default is "+w,
-			fmt.Sprintf("default of %s for %s step is %s; Python defines %s", parts[0], map[string]string{"neg": "negative", "pos": "positive"}[parts[1]], got, w))
-	}
-	// clips equal the defaults of the same sign
-	for _, half := range []struct {
-		is *ast.IfStmt
-		v  string
-	}{{sStart, vS}, {sStop, vE}} {
-		var rows []gaRow
-		guardedAssigns([]ast.Stmt{half.is}, nil, func(s string) string { return s }, &rows)
-		n := 0
-		for _, row := range rows {
-			if row.lhs != half.v || len(row.conds) < 3 {
-				continue
-			}
-			bound, sign := "", ""
-			for _, cd := range row.conds[1:] {
-				switch {
-				case cd == half.v+" < 0":
-					bound = "low"
-				case cd == half.v+" >= "+lengthName:
-					bound = "high"
-				case signOf(cd) != "":
-					sign = signOf(cd)
-				}
-			}
-			if bound == "" || sign == "" {
-				continue
-			}
-			n++
-			var wantName string
-			switch bound + sign {
-			case "lowneg":
-				wantName = dE // -1
-			case "lowpos":
-				wantName = dS // 0
-			case "highneg":
-				wantName = dS // length-1
-			case "highpos":
-				wantName = dE // length
-			}
-			w := defOf(wantName, sign)
-			r.check(row.rhs == w, fmt.Sprintf("py|Slice.GetIndices|clip %s %s %s", half.v, bound, sign), half.is.Pos(),
-				"an out-of-range bound is clipped to "+w+", the default of that end for this step sign",
-				fmt.Sprintf("%s beyond the %s end with %s step is clipped to %s; Python clips to %s (an out-of-range bound behaves like an omitted one at that end)", half.v, bound, map[string]string{"neg": "negative", "pos": "positive"}[sign], row.rhs, w))
-		}
-		if n != 4 {
-			r.undecided("py|Slice.GetIndices|clips of "+half.v, half.is.Pos(), "expected 4 clip assignments (low/high x step sign), recognised %d; confirm the clipping code and update the rule", n)
-		}
-	}
-}
-
 func signOf(cond string) string {
 	switch cond {
 	case "step < 0":
